@@ -177,7 +177,8 @@ func (s *Spec) voteOp(oi int, rel int, variant string) explore.Op {
 		n := uint64(int64(preLast) + int64(rel))
 		orc, registered := k.GetOracle(ctx, o.Acct.Acc())
 		bridgerOracle, hasIdx := k.GetOracleAddrByBridgerAddr(ctx, o.Bridger.Acc())
-		online := registered && orc.Online && hasIdx && bridgerOracle.Equals(o.Acct.Acc())
+		// the vote comes in through o.Bridger: it may count only if that is the bridger the oracle's record names
+		online := registered && orc.Online && hasIdx && bridgerOracle.Equals(o.Acct.Acc()) && orc.BridgerAddress == o.Bridger.Bech()
 		claim := s.claim(n, variant)
 		r := scen.Vote(s.w, ctx, s.Chain, o, claim)
 		st.Accepted = r.OK()
@@ -197,7 +198,7 @@ func (s *Spec) voteOp(oi int, rel int, variant string) explore.Op {
 		}
 		st.Outcome = "accepted"
 		if !online {
-			st.Violate("vote-admission", s.sig("vote-from-non-online-oracle"), fmt.Sprintf("%s accepted although oracle registered=%v online=%v bridger-index=%v", name, registered, orc.Online, hasIdx))
+			st.Violate("vote-admission", s.sig("vote-from-non-online-oracle"), fmt.Sprintf("%s (submitted by %s) accepted although oracle registered=%v online=%v bridger-index=%v registered bridger=%s", name, o.Bridger.Bech(), registered, orc.Online, hasIdx, orc.BridgerAddress))
 		}
 		if rel != 1 {
 			st.Violate("oracle-votes-contiguously", s.sig("vote-noncontiguous-accepted"), fmt.Sprintf("%s accepted: oracle last nonce %d, claim nonce %d", name, preLast, n))
@@ -452,6 +453,13 @@ func (s *Spec) rebondOps(st *explore.State) []explore.Op {
 		if !k.HasOracle(ctx, victim.Acct.Acc()) {
 			ops = append(ops, s.msgOp(fmt.Sprintf("Bond(o%d)", bonded), func(sdk.Context) sdk.Msg {
 				return scen.BondMsg(s.Chain, victim, s.w.Vals[0].ValAddr(), world.FX(s.Stakes[vi]))
+			}))
+			// the same oracle comes back with a new bridger: its former bridger (which keeps submitting the victim's
+			// votes in this scenario) has no standing any more
+			ops = append(ops, s.msgOp(fmt.Sprintf("Bond(o%d,new-bridger)", bonded), func(sdk.Context) sdk.Msg {
+				m := scen.BondMsg(s.Chain, victim, s.w.Vals[0].ValAddr(), world.FX(s.Stakes[vi]))
+				m.BridgerAddress = world.NewActor(victim.Name + "-bridger2").Bech()
+				return m
 			}))
 		}
 	} else {
